@@ -298,7 +298,7 @@ def run_desc(case, st):
 # ------------------------------------------------------------------ wait (explorer C)
 def run_wait(case, st):
     import canopen.emcy as emcy_mod
-    vsched.interpose(emcy_mod.EmcyConsumer, {"log", "active"})
+    vsched.interpose(emcy_mod.EmcyConsumer, {"log", "active", "_received"})
     frames, flt, P = case["frames"], case["filter"], case["P"]
     TIMEOUT = 1.0
 
